@@ -9,7 +9,13 @@ where
 {
     if let Some(prev) = maybe_prev {
         if event.is_subject == prev.is_subject {
-            event.set_in_out(!prev.is_in_out(), prev.is_other_in_out());
+            if prev.is_vertical() {
+                // The region between a vertical predecessor and `event` is the region to the
+                // right of the vertical, which is the side its flags describe ("below").
+                event.set_in_out(prev.is_in_out(), prev.is_other_in_out());
+            } else {
+                event.set_in_out(!prev.is_in_out(), prev.is_other_in_out());
+            }
         } else if prev.is_vertical() {
             event.set_in_out(!prev.is_other_in_out(), !prev.is_in_out());
         } else {
